@@ -43,7 +43,9 @@ def combine_patches(diffs):
                 p.diff = combine_patches(p.diff + d.diff)
         else:
             newdiffs.append(d)
-    return sorted(newdiffs, key=lambda x: x.key)
+    # Entries are sorted by key; an insertion goes before a patch or removal
+    # of the item it precedes, in whatever order the entries were collected
+    return sorted(newdiffs, key=lambda x: (x.key, x.op != DiffOp.ADDRANGE))
 
 
 def adjust_patch_level(target_path, common_path, diff):
